@@ -101,7 +101,8 @@ def local_assignments(func: ast.AST, name: str) -> List[ast.AST]:
         if isinstance(n, ast.Assign):
             for t in n.targets:
                 for sub in ast.walk(t):
-                    if isinstance(sub, ast.Name) and sub.id == name:
+                    # only a name that is *stored*: in `cache[key] = v` neither `cache` nor `key` is assigned
+                    if isinstance(sub, ast.Name) and sub.id == name and isinstance(sub.ctx, ast.Store):
                         out.append(n.value)
         elif isinstance(n, (ast.AnnAssign, ast.AugAssign)) and n.value is not None:
             if isinstance(n.target, ast.Name) and n.target.id == name:
